@@ -90,5 +90,67 @@ def mul (a b : UInt64) : UInt64 := (Float.ofBits a * Float.ofBits b).toBits
 def div (a b : UInt64) : UInt64 := (Float.ofBits a / Float.ofBits b).toBits
 def neg (a : UInt64) : UInt64 := a ^^^ 0x8000000000000000
 
+/-- `f64::abs`: clear the sign bit. -/
+def abs (a : UInt64) : UInt64 := a &&& 0x7fffffffffffffff
+
+/- libm (opaque to the kernel, trusted like `+ - * /`). -/
+def sqrt (a : UInt64) : UInt64 := (Float.sqrt (Float.ofBits a)).toBits
+def log10 (a : UInt64) : UInt64 := (Float.log10 (Float.ofBits a)).toBits
+def log2 (a : UInt64) : UInt64 := (Float.log2 (Float.ofBits a)).toBits
+def powf (a b : UInt64) : UInt64 := (Float.pow (Float.ofBits a) (Float.ofBits b)).toBits
+
+/-- `f64::powi` = compiler-builtins `__powidf2`: square and multiply on the magnitude of the exponent,
+    reciprocal at the end for a negative one. -/
+def powiGo : Nat → UInt64 → Nat → UInt64 → UInt64
+  | 0, _, _, acc => acc
+  | fuel + 1, a, p, acc =>
+    let acc' := if p % 2 == 1 then mul acc a else acc
+    let p' := p / 2
+    if p' == 0 then acc' else powiGo fuel (mul a a) p' acc'
+
+def powi (a : UInt64) (b : Int) : UInt64 :=
+  let r := powiGo 33 a b.natAbs one
+  if b < 0 then div one r else r
+
+/-- Is the (finite) value an integer. -/
+def isIntegral (b : UInt64) : Bool :=
+  let e := expBits b
+  if mag b == 0 then true
+  else if e < 1023 then false
+  else if e ≥ 1075 then true
+  else (manBits b + (1 <<< 52)) % (1 <<< (1075 - e)) == 0
+
+/-- ⌊x⌋ of a finite value, exactly. -/
+def floorInt (b : UInt64) : Int :=
+  let t := truncInt b
+  if signBit b && !isIntegral b then t - 1 else t
+
+/-- ⌈x⌉ of a finite value, exactly. -/
+def ceilInt (b : UInt64) : Int :=
+  let t := truncInt b
+  if !signBit b && !isIntegral b then t + 1 else t
+
+/-- `f64::round` of a finite value: nearest integer, halves away from zero. -/
+def roundInt (b : UInt64) : Int :=
+  let e := expBits b
+  let m : Nat :=
+    if e < 1022 then 0
+    else if e == 1022 then 1
+    else if e ≥ 1075 then (truncInt b).natAbs
+    else
+      let sh := 1075 - e
+      let sig := manBits b + (1 <<< 52)
+      let q := sig >>> sh
+      if sig % (1 <<< sh) ≥ (1 <<< (sh - 1)) then q + 1 else q
+  if signBit b then -(m : Int) else (m : Int)
+
+/-- `f(x) as i64` for an integer-valued `f` given exactly on finite values (`f(±inf) = ±inf`, `f(NaN) = NaN`). -/
+def satOf (f : UInt64 → Int) (b : UInt64) : Int :=
+  if isNaN b then 0
+  else if isInf b then (if signBit b then i64Min else i64Max)
+  else
+    let t := f b
+    if t < i64Min then i64Min else if t > i64Max then i64Max else t
+
 end F
 end Rscel
